@@ -22,11 +22,10 @@ package main
 //                differs from the record's (or the only one), each with the residues the library's
 //                Locate gives; with -v exactly the maximal stretches no region covers.
 //
-// Known finding K15A: a piece of length 0 (split at position 0 or at the end of a linear record, a
-// region whose first part has length 0 in extract) makes the GenBank writer panic on the REGION
-// field of the empty slice (gts.Range(h, h)).  Known finding K15B: several located regions with
-// ONE distinct cut on a circular record (or cuts 0 and L) give one empty piece instead of the
-// rotated record: the residues are lost (FASTA) or the writer panics (GenBank).
+// Repaired defects F23 (0f056fc: the GenBank writer panicked on a piece of length 0 — split at
+// position 0 or at the end, extract of a region starting with a zero-length part) and F24
+// (78dc8d4: several regions with ONE distinct cut on a circular record gave one empty piece):
+// their shapes are counted (shape/…) so that the evidence shows they are still reached.
 
 import (
 	"bytes"
@@ -635,32 +634,25 @@ func c15Oracle(r *Run, c c15Case, line string, res c15Result) {
 	fail := func(oracle, got, want string, finding string) {
 		r.fail(Failure{Oracle: oracle, Op: line, Got: got, Want: want, Finding: finding})
 	}
-	// expected pieces, for the empty-piece finding
-	emptyPiece := false
+	// the shapes of the repaired defects F23 / F24 stay in the generators
 	switch name {
 	case "split":
-		emptyPiece = c15SplitHasEmptyPiece(rr, L, c.circ)
+		if c15SplitHasEmptyPiece(rr, L, c.circ) {
+			r.count("shape/split-empty-piece")
+		}
+		if c.circ && len(rr) > 1 && len(c15Cuts(rr)) == 1 {
+			r.count("shape/split-circular-one-distinct-cut")
+		}
 	case "extract":
-		// the metadata (REGION field) of an emitted record comes from the slice of its first leaf
 		for _, x := range c15ExtractRegions(c, L) {
 			if lv := c15Leaves(x); len(lv) > 0 && lv[0][0] == lv[0][1] {
-				emptyPiece = true
+				r.count("shape/extract-region-starting-with-empty-part")
+				break
 			}
 		}
 	}
-	// K15A: an empty piece; K15B: the empty piece of a circular record cut at ONE distinct position
-	// by several located regions (the record's residues are lost, not just a panic)
-	kfinding := "K15A"
-	if name == "split" && c.circ && emptyPiece {
-		kfinding = "K15B"
-	}
 	if !res.ok {
 		r.count("outcome/" + res.answer)
-		if res.answer == "PANIC" && emptyPiece && !c.fasta {
-			r.count("finding/" + kfinding)
-			fail("gts "+name+" writes every piece (a piece of length 0 makes the GenBank writer panic)", res.answer, "records", kfinding)
-			return
-		}
 		fail("gts "+name+" succeeds on an in-range locator", res.answer, "exit status 0 and parseable records", "")
 		return
 	}
@@ -709,12 +701,7 @@ func c15Oracle(r *Run, c c15Case, line string, res c15Result) {
 				}
 			}
 			if !ok {
-				f := ""
-				if emptyPiece {
-					f = kfinding
-					r.count("finding/" + kfinding)
-				}
-				fail("split (circular): the pieces concatenate to the input re-origined at a cut", c15BytesOf(outs), "a rotation of "+string(in)+" starting at a located position", f)
+				fail("split (circular): the pieces concatenate to the input re-origined at a cut", c15BytesOf(outs), "a rotation of "+string(in)+" starting at a located position", "")
 			}
 		}
 		// every distinct cut is a piece boundary
@@ -790,16 +777,15 @@ func c15SplitCount(rr gts.Regions, L int, circ bool) int {
 	return len(cuts) + 1
 }
 
+// c15SplitHasEmptyPiece: some piece comes from an empty slice
 func c15SplitHasEmptyPiece(rr gts.Regions, L int, circ bool) bool {
 	cuts := c15Cuts(rr)
 	switch {
 	case len(rr) == 0:
 		return false
-	case circ && len(rr) == 1:
-		return false // rotated, not sliced
 	case circ:
-		// pieces: last..first across the origin, then the consecutive ones
-		return len(cuts) == 1 || (cuts[0] == 0 && cuts[len(cuts)-1] == L)
+		// one region or one distinct cut: rotated; else last..first across the origin, then the consecutive ones
+		return len(cuts) > 1 && cuts[0] == 0 && cuts[len(cuts)-1] == L
 	}
 	return cuts[0] == 0 || cuts[len(cuts)-1] == L
 }
